@@ -31,25 +31,43 @@ namespace Pistache::Http
     {
         using time_point = FullDate::time_point;
 
+        // Like 'in >> date::parse(fmt, tp)', but a date that a system_clock
+        // time_point cannot represent (its range is only 1677..2262 with
+        // nanosecond ticks) fails to parse instead of overflowing.
+        bool parse_date(const std::string& s, const char* fmt, time_point& tp)
+        {
+            using CT = std::common_type<time_point::duration, std::chrono::seconds>::type;
+
+            std::istringstream in { s };
+            date::fields<CT> fds {};
+            fds.has_tod = true;
+            std::chrono::minutes offset {};
+            date::from_stream(in, fmt, fds, static_cast<std::string*>(nullptr), &offset);
+            if (in.fail() || !fds.ymd.ok() || !fds.tod.in_conventional_range())
+                return false;
+
+            static const auto minYear = date::year_month_day { date::floor<date::days>(time_point::min()) }.year() + date::years { 1 };
+            static const auto maxYear = date::year_month_day { date::floor<date::days>(time_point::max()) }.year() - date::years { 1 };
+            if (fds.ymd.year() < minYear || fds.ymd.year() > maxYear)
+                return false;
+
+            tp = std::chrono::time_point_cast<time_point::duration>(date::sys_days(fds.ymd) - offset + fds.tod.to_duration());
+            return true;
+        }
+
         bool parse_RFC_1123(const std::string& s, time_point& tp)
         {
-            std::istringstream in { s };
-            in >> date::parse("%a, %d %b %Y %T %Z", tp);
-            return !in.fail();
+            return parse_date(s, "%a, %d %b %Y %T %Z", tp);
         }
 
         bool parse_RFC_850(const std::string& s, time_point& tp)
         {
-            std::istringstream in { s };
-            in >> date::parse("%A, %d-%b-%y %T %Z", tp);
-            return !in.fail();
+            return parse_date(s, "%A, %d-%b-%y %T %Z", tp);
         }
 
         bool parse_asctime(const std::string& s, time_point& tp)
         {
-            std::istringstream in { s };
-            in >> date::parse("%a %b %d %T %Y", tp);
-            return !in.fail();
+            return parse_date(s, "%a %b %d %T %Y", tp);
         }
 
     } // anonymous namespace
